@@ -93,8 +93,13 @@ fn prune_req<K: Kmer>(a: &[&str]) -> String {
 
 /// filter → prune → compress → finish; returns (sigma, base graph text, finished graph)
 pub fn pipeline<K: Kmer + Send + Sync>(reads: &[Vec<u8>], stranded: bool, thr: usize) -> (Vec<usize>, DebruijnGraph<K, u32>) {
+    pipeline_sm(reads, stranded, thr, false)
+}
+
+/// the same with the summarizer chosen: `set` = CountFilterSet with every read labelled 0 (payload = code 1 of the label set {0})
+pub fn pipeline_sm<K: Kmer + Send + Sync>(reads: &[Vec<u8>], stranded: bool, thr: usize, set: bool) -> (Vec<usize>, DebruijnGraph<K, u32>) {
     let labels = vec![0u8; reads.len()];
-    let t: Vec<(K, (Exts, u32))> = table_from_reads(reads, &labels, stranded, thr, false, true);
+    let t: Vec<(K, (Exts, u32))> = table_from_reads(reads, &labels, stranded, thr, set, true);
     let keys: Vec<K> = t.iter().map(|x| x.0).collect();
     let pos: HashMap<K, usize> = keys.iter().enumerate().map(|(i, k)| (*k, i)).collect();
     let index = BoomHashMap2::new(keys, t.iter().map(|x| (x.1).0).collect(), t.iter().map(|x| (x.1).1).collect());
@@ -105,7 +110,8 @@ pub fn pipeline<K: Kmer + Send + Sync>(reads: &[Vec<u8>], stranded: bool, thr: u
 
 fn pipe_req<K: Kmer + Send + Sync>(a: &[&str]) -> String {
     let reads: Vec<Vec<u8>> = if a[4] == "-" { vec![] } else { a[4].split(',').map(|r| digits(r.split(':').next().unwrap())).collect() };
-    let (sigma, g) = pipeline::<K>(&reads, a[2] == "1", a[3].parse().unwrap());
+    let (set, thr) = match a[3].strip_prefix('s') { Some(t) => (true, t), None => (false, a[3]) };
+    let (sigma, g) = pipeline_sm::<K>(&reads, a[2] == "1", thr.parse().unwrap(), set);
     format!("sigma={}|nodes={}|edges={}", show_nat_list(&sigma), show_graph(&g.base), all_edges(&g))
 }
 
@@ -212,7 +218,8 @@ pub fn gen(rng: &mut Rng, tier: &str) -> String {
         0 => with_graph_kmer!(k, gen_prune, rng, k, stranded),
         1 | 2 => {
             let reads = gen_reads(rng, k, 6, 50);
-            format!("C03 pipe {} {} {} {}", k, stranded as u8, *rng.pick(&[1usize, 1, 2, 3]), show_reads(&reads, rng, false))
+            // a third of the time through CountFilterSet (all reads under one label: consecutive observations share it)
+            format!("C03 pipe {} {} {}{} {}", k, stranded as u8, if rng.chance(1, 3) { "s" } else { "" }, *rng.pick(&[1usize, 1, 2, 3]), show_reads(&reads, rng, false))
         }
         _ => with_graph_kmer!(k, gen_graph, rng, k, tier, stranded),
     }
